@@ -1,6 +1,7 @@
 (* C11 - Rate/concurrency limits are enforced and every permit is returned. *)
 From Maddy Require Limits.Corr.
 From Maddy Require Import Lib.Base Limits.Model Limits.Lemmas.
+From Maddy Require Limits.Reap Limits.ReapLemmas.
 Local Open Scope N_scope.
 
 (* [reach cfg max g m d]: g is reachable from the initial group by ANY interleaving of takes,
@@ -78,3 +79,31 @@ Theorem C11_correspondence_covers_well_formed_histories :
     Corr.wf_prefix ops res [] [] = length ops.
 Proof. intros ops res. exact (Corr.wf_prefix_all ops res [] []). Qed.
 Print Assumptions C11_correspondence_covers_well_formed_histories.
+
+(* The reaper of a bucket set (Limits/Reap.v: when the table is over-full a take first drops the buckets
+   idle for ReapInterval that have no permit out): for EVERY history of takes, releases by holders and
+   idle periods, over any number of keys and any table size, in the state reached the permits out for a
+   key are exactly the users of its bucket and at most the limit - no bucket with permits out is ever
+   dropped and no dropped bucket is ever handed out - and no operation crashed. *)
+Theorem C11_reaper_sound :
+  forall cap maxb ops,
+    ReapLemmas.wf_hist cap maxb [] [] ops ->
+    let s := ReapLemmas.final cap maxb [] [] ops in
+    (forall k, Reap.cnt (snd s) k <= cap) /\
+    (forall k, ReapLemmas.users_of (fst s) k = Reap.cnt (snd s) k) /\
+    ~ In Reap.RPanic (Reap.rrun cap maxb [] ops).
+Proof.
+  intros cap maxb ops W s. subst s.
+  destruct (ReapLemmas.reach_inv cap maxb ops [] [] (ReapLemmas.inv0 cap) W) as [[_ I] NP].
+  split; [|split; [|exact NP]]; intro k; destruct (I k) as [A B]; [rewrite <- A; exact B|exact A].
+Qed.
+Print Assumptions C11_reaper_sound.
+
+(* non-vacuity: a key comes back after an idle period to an over-full table; its own idle bucket is
+   reaped, the bucket of the key that still holds a permit is not, and the table is full again *)
+Example C11_reaper_nonvacuous :
+  let a := [97] in let b := [98] in
+  let ops := [Reap.RTake a; Reap.RRelease a; Reap.RTake b; Reap.RIdle; Reap.RTake a; Reap.RTake a] in
+  ReapLemmas.wf_hist 1 1 [] [] ops /\
+  Reap.rrun 1 1 [] ops = [Reap.ROk; Reap.ROk; Reap.ROk; Reap.ROk; Reap.ROk; Reap.RFull].
+Proof. split; [cbn; repeat split; reflexivity|vm_compute; reflexivity]. Qed.
